@@ -157,3 +157,157 @@ Example worker_children_follow_witness :
   observe [1; 2; 3] s = [mkO 2 false 2 true; mkO 1 true 2 false; mkO 1 true 2 false] /\
   observe [1; 2; 3] (worker [1] never [] s) = [mkO 3 false 0 true; mkO 3 false 0 true; mkO 1 true 2 false].
 Proof. vm_compute. repeat split; reflexivity. Qed.
+
+(* ------------------------------------------------------------------ transient storage errors (OpWorkerS) *)
+(* everything the deletion machinery keeps about one id: heads entry, stored changes, queue / deleted membership *)
+Definition same_at (i : N) (s s' : state) : Prop :=
+  get i s' = get i s /\ has_entry i s' = has_entry i s /\ find_c i (chg s') = find_c i (chg s) /\
+  memb i (mq s') = memb i (mq s) /\ memb i (md s') = memb i (md s).
+
+Lemma same_at_refl : forall i s, same_at i s s.
+Proof. intros i s. repeat split. Qed.
+
+Lemma same_at_trans : forall i a b c, same_at i a b -> same_at i b c -> same_at i a c.
+Proof.
+  intros i a b c [A1 [A2 [A3 [A4 A5]]]] [B1 [B2 [B3 [B4 B5]]]]. repeat split; congruence.
+Qed.
+
+Lemma bool_eq_iff : forall a b : bool, (a = true <-> b = true) -> a = b.
+Proof. intros [|] [|] [H1 H2]; try reflexivity; [symmetry; apply H1; reflexivity | apply H2; reflexivity]. Qed.
+
+(* the deletion of another id leaves it untouched *)
+Lemma drop_tree_other : forall j s i, i <> j -> same_at i s (drop_tree j s).
+Proof.
+  intros j s i Hne.
+  assert (Hid : forall s1, e_id (set_status 2 (get j s1)) = j) by (intros s1; apply get_id).
+  repeat split.
+  - rewrite drop_tree_get. destruct (N.eqb_spec i j); [contradiction|reflexivity].
+  - unfold drop_tree, st_delete. apply bool_eq_iff. rewrite (upd_has_entry j _ _ (Hid _) i).
+    assert (E : forall s0, has_entry i (with_md (sadd j (md s0)) (with_mq (srem j (mq s0)) s0)) = has_entry i s0) by reflexivity.
+    rewrite E. assert (E2 : has_entry i (if has_storage j s then with_chg (del_c j (chg s)) s else s) = has_entry i s)
+      by (now destruct (has_storage j s)).
+    rewrite E2. split; [intros [H|[H _]]; [exact H | contradiction] | now left].
+  - unfold drop_tree, st_delete. rewrite upd_chg. cbn [chg with_md with_mq].
+    destruct (has_storage j s); [|reflexivity]. cbn [chg with_chg]. rewrite find_del_c.
+    destruct (N.eqb_spec j i); [congruence|reflexivity].
+  - unfold drop_tree, st_delete. rewrite upd_mq. cbn [mq with_md with_mq]. rewrite memb_srem.
+    destruct (N.eqb_spec i j); [contradiction|]. cbn [negb andb]. now destruct (has_storage j s).
+  - unfold drop_tree, st_delete. rewrite upd_md. cbn [md with_md with_mq]. rewrite memb_sadd.
+    destruct (N.eqb_spec i j); [contradiction|]. cbn [orb]. now destruct (has_storage j s).
+Qed.
+
+Lemma delete_one_not_failing : forall fail i s s', delete_one fail i s = Some s' -> memb i fail = false.
+Proof. intros fail i s s'. unfold delete_one. destruct (memb i fail); [discriminate|reflexivity]. Qed.
+
+(* an id for which the tree manager fails is left exactly as it was by the whole run: whatever the queue order, the
+   cancellation point, the other failures and the bound-children passes *)
+Lemma worker_children_fault : forall k fail i, memb i fail = true ->
+  forall cs s n, same_at i s (fst (worker_children k fail cs (s, n))).
+Proof.
+  intros k fail i Hf. induction cs as [|c r IH]; intros s n; cbn [worker_children fst].
+  - apply same_at_refl.
+  - destruct (cancelled k n); [apply same_at_refl|].
+    destruct (2 <=? status c s); [apply IH|].
+    destruct (delete_one fail c s) as [s'|] eqn:D; [|apply IH].
+    pose proof (delete_one_not_failing _ _ _ _ D) as Hc. apply delete_one_some in D. subst s'.
+    eapply same_at_trans; [|apply IH]. apply drop_tree_other. intros ->. congruence.
+Qed.
+
+Lemma worker_loop_fault : forall k fail i, memb i fail = true ->
+  forall order s n, same_at i s (fst (worker_loop k fail order (s, n))).
+Proof.
+  intros k fail i Hf. induction order as [|j r IH]; intros s n; cbn [worker_loop fst].
+  - apply same_at_refl.
+  - destruct (cancelled k n); [apply same_at_refl|].
+    destruct (delete_one fail j s) as [s'|] eqn:D; [|apply IH].
+    pose proof (delete_one_not_failing _ _ _ _ D) as Hc. apply delete_one_some in D. subst s'.
+    pose proof (worker_children_fault k fail i Hf (children_of j (drop_tree j s)) (drop_tree j s) (N.succ n)) as W.
+    destruct (worker_children k fail (children_of j (drop_tree j s)) (drop_tree j s, N.succ n)) as [s2 n2].
+    cbn [fst] in W. eapply same_at_trans; [|apply IH].
+    eapply same_at_trans; [|exact W]. apply drop_tree_other. intros ->. congruence.
+Qed.
+
+Lemma worker_fault_keeps : forall order k fail s i, memb i fail = true -> same_at i s (worker order k fail s).
+Proof. intros order k fail s i Hf. unfold worker. now apply worker_loop_fault. Qed.
+
+Lemma same_at_views : forall i s s', same_at i s s' ->
+  status i s' = status i s /\ has_chg i s' = has_chg i s /\ has_storage i s' = has_storage i s /\ mem i s' = mem i s /\
+  o_st (observe1 s' i) = o_st (observe1 s i) /\ o_nchg (observe1 s' i) = o_nchg (observe1 s i) /\
+  o_mem (observe1 s' i) = o_mem (observe1 s i).
+Proof.
+  intros i s s' [A1 [A2 [A3 [A4 A5]]]].
+  assert (S : status i s' = status i s) by (unfold status; now rewrite A1).
+  assert (C : has_chg i s' = has_chg i s) by (unfold has_chg; now rewrite A3).
+  assert (M : mem i s' = mem i s) by (unfold mem; now rewrite A4, A5).
+  repeat split; try assumption.
+  - unfold has_storage. now rewrite A2, C.
+  - cbn [observe1 o_st]. now rewrite A2, S.
+  - cbn [observe1 o_nchg]. now rewrite A3.
+Qed.
+
+(* OpWorkerS: a stored id whose storage Delete fails during the run is left exactly as it was - in particular it is NOT
+   reported deleted (a queued id stays queued, durably and in the deletion state), and all its changes are still stored *)
+Theorem worker_storage_fault_keeps : forall s order k fail sfail i,
+  memb i sfail = true -> has_storage i s = true ->
+  same_at i s (fst (step true s (OpWorkerS order k fail sfail))).
+Proof.
+  intros s order k fail sfail i Hm Hs. cbn [step fst]. unfold worker_s. apply worker_fault_keeps.
+  rewrite memb_app. apply orb_true_iff. right. unfold sfail_eff. apply memb_In. apply filter_In.
+  split; [now apply memb_In | exact Hs].
+Qed.
+
+(* ... and the retry deletes it for good: after a faulty run (from any reachable state) the id is still queued and
+   stored, and a later run that is not cancelled and whose tree manager / storage do not fail fully deletes it, with
+   nothing left in the store *)
+Theorem storage_fault_retry : forall ops order k fail sfail i,
+  let s := run true ops init in
+  let s1 := run true (ops ++ [OpWorkerS order k fail sfail]) init in
+  memb i sfail = true -> has_storage i s = true -> memb i (mq s) = true ->
+  (status i s1 = status i s /\ has_storage i s1 = true /\ memb i (mq s1) = true /\
+   o_nchg (observe1 s1 i) = o_nchg (observe1 s i)) /\
+  forall order2 k2, worker_calls order2 k2 [] s1 < k2 -> memb i order2 = true ->
+    status i (worker order2 k2 [] s1) = 2 /\ has_chg i (worker order2 k2 [] s1) = false.
+Proof.
+  intros ops order k fail sfail i s s1 Hm Hs Hq.
+  assert (E1 : s1 = fst (step true s (OpWorkerS order k fail sfail))).
+  { unfold s1, s. rewrite run_app. reflexivity. }
+  pose proof (worker_storage_fault_keeps s order k fail sfail i Hm Hs) as K. rewrite <- E1 in K.
+  pose proof (same_at_views i s s1 K) as [V1 [V2 [V3 [V4 [V5 [V6 V7]]]]]].
+  destruct K as [K1 [K2 [K3 [K4 K5]]]].
+  assert (Hq1 : memb i (mq s1) = true) by congruence.
+  split; [repeat split; [exact V1 | congruence | exact Hq1 | exact V6]|].
+  intros order2 k2 Hlt Ho.
+  destruct (worker_children_follow (ops ++ [OpWorkerS order k fail sfail]) order2 k2 i Hlt Hq1 Ho) as [P _].
+  fold s1 in P. split; [exact P|].
+  assert (E2 : worker order2 k2 [] s1 = run true ((ops ++ [OpWorkerS order k fail sfail]) ++ [OpWorker order2 k2 []]) init).
+  { rewrite run_app. reflexivity. }
+  rewrite E2 in *. now apply deleted_nothing_stored.
+Qed.
+
+(* a fully deleted id is gone: fetching or putting it fails as already deleted and changes nothing - it can no longer be
+   served from the local store (only a merely queued id that is still stored can) *)
+Theorem deleted_fetch_put_fail : forall ops i p d h rem,
+  let s := run true ops init in
+  status i s = 2 ->
+  step true s (OpFetch i p d h rem) = (s, OErrDeleted) /\ step true s (OpPut i p d) = (s, OErrDeleted).
+Proof.
+  intros ops i p d h rem s H.
+  assert (Ht : tomb i s = true).
+  { apply tomb_spec. split; [|rewrite H; discriminate].
+    unfold status, get in H. unfold has_entry. destruct (find_e i (ents s)); [reflexivity | discriminate]. }
+  assert (Hc : has_storage i s = false).
+  { unfold has_storage. unfold s. rewrite (deleted_nothing_stored ops i H). apply andb_false_r. }
+  split; [|now apply put_tombstoned]. rewrite (fetch_tombstoned s i p d h rem Ht). now rewrite Hc.
+Qed.
+
+Example storage_fault_witness :
+  let ops := [OpPut 1 0 false; OpHead 1 1001; OpPut 2 0 false; OpHead 2 1002; OpSettings [1; 2]] in
+  let s := run true ops init in
+  let s1 := run true (ops ++ [OpWorkerS [1; 2] never [] [1]]) init in
+  has_storage 1 s = true /\ memb 1 (mq s) = true /\
+  observe [1; 2] s = [mkO 2 false 2 true; mkO 2 false 2 true] /\
+  observe [1; 2] s1 = [mkO 2 false 2 true; mkO 3 false 0 true] /\
+  (worker_calls [1] never [] s1 <? never) = true /\
+  observe [1; 2] (worker [1] never [] s1) = [mkO 3 false 0 true; mkO 3 false 0 true] /\
+  snd (step true (restart (worker [1] never [] s1)) (OpFetch 1 0 false 1003 true)) = OErrDeleted.
+Proof. vm_compute. repeat split; reflexivity. Qed.
